@@ -131,6 +131,12 @@ ArityCases ==
   {CaseOf("C06/arity/fi0", Prelude \o <<Def1("r", CallE("fnI", <<>>))>>), CaseOf("C06/arity/fi2", Prelude \o <<Def1("r", CallE("fnI", <<I("1"), I("2")>>))>>),
    CaseOf("C06/arity/f21", Prelude \o <<Def1("r", CallE("f2", <<I("1")>>))>>), CaseOf("C06/arity/f23", Prelude \o <<Def1("r", CallE("f2", <<I("1"), StrL("s"), I("3")>>))>>),
    CaseOf("C06/arity/v01", Prelude \o <<ExprS(CallE("v0", <<I("1")>>))>>), CaseOf("C06/arity/ok", Prelude \o <<Def1("r", CallE("f2", <<I("1"), StrL("s")>>)), ExprS(CallE("v0", <<>>))>>),
+   \* a function written without parameter brackets has no parameters
+   CaseOf("C06/arity/bare0", Prelude \o <<FuncBare("bv", <<>>, <<Print1(I("1"))>>), FuncBare("bi", <<"int">>, <<RetS(<<I("4")>>)>>), ExprS(CallE("bv", <<>>)), Def1("r", CallE("bi", <<>>))>>),
+   CaseOf("C06/arity/bare1", Prelude \o <<FuncBare("bv", <<>>, <<Print1(I("1"))>>), ExprS(CallE("bv", <<I("1")>>))>>),
+   CaseOf("C06/arity/bare2", Prelude \o <<FuncBare("bi", <<"int">>, <<RetS(<<I("4")>>)>>), Def1("r", CallE("bi", <<StrL("a"), BoolL(TRUE)>>))>>),
+   CaseOf("C06/arity/bare1nested", Prelude \o <<FuncBare("bi", <<"int">>, <<RetS(<<I("4")>>)>>), Func("w", <<>>, <<>>, <<For3(Def1("k", I("0")), CmpE("<", Var("k"), I("1")), Inc("k"), <<If1(Var("xb"), <<Print1(CallE("bi", <<Var("k")>>))>>)>>)>>)>>),
+   CaseOf("C06/arity/barevoidvalue", Prelude \o <<FuncBare("bv", <<>>, <<Print1(I("1"))>>), Def1("r", CallE("bv", <<>>))>>),
    CaseOf("C06/count/def2of1", Prelude \o <<Def(<<"p", "q">>, <<I("1")>>)>>), CaseOf("C06/count/def1of2", Prelude \o <<Def(<<"p">>, <<I("1"), I("2")>>)>>),
    CaseOf("C06/count/asg2of3", Prelude \o <<Def(<<"p", "q">>, <<I("1"), I("2")>>), Asg(<<"p", "q">>, <<I("1"), I("2"), I("3")>>)>>),
    CaseOf("C06/count/callplusvalue", Prelude \o <<Def(<<"p", "q", "z">>, <<CallE("m2", <<>>), I("3")>>)>>),
